@@ -464,6 +464,9 @@ func (p *Parent) runChild(self, id, tier string, seed int64, cases []int, wdir s
 	ef, _ := os.Create(errPath)
 	cmd.Stderr = ef
 	cmd.Stdout = ef
+	if os.Getenv("VERIF_TIMING") != "" {
+		cmd.Stderr = os.Stderr
+	}
 	cmd.Env = append(os.Environ(), "VERIF_CHILD=1")
 	wall := 4 * time.Hour
 	if v := os.Getenv("VERIF_WALL"); v != "" {
